@@ -75,6 +75,12 @@ class BaseElementLocator
   public:
     static constexpr auto reserved_bytes(std::size_t) noexcept { return std::size_t{}; }
 
+    template <class Allocator>
+    void deallocate(const Allocator& allocator) noexcept
+    {
+        element_addresses_.deallocate(allocator);
+    }
+
     bool empty(const std::byte*) const noexcept { return element_addresses_.empty(); }
 
     std::size_t memory_size() const noexcept { return element_addresses_.size() * sizeof(std::size_t); }
@@ -216,6 +222,11 @@ class BaseAllFixedSizeElementLocator
     }
 
   public:
+    template <class Allocator>
+    static constexpr void deallocate(const Allocator&) noexcept
+    {
+    }
+
     constexpr bool empty(const std::byte*) const noexcept { return element_count_ == std::size_t{}; }
 
     static constexpr std::size_t memory_size() noexcept { return {}; }
